@@ -30,7 +30,7 @@ def plan(tier, seed):
 
 def floors(tier):
     strata = ["%s/%s" % (a, c) for a in ("overlap", "simple") for c in ("fits", "split-2", "split-3+")] + \
-             ["overlap/wide-label", "overlap/le2-labels-unfit", "none/no-split-expected", "overlap/no-split-expected", "engine-reported-layering"]
+             ["overlap/wide-label", "overlap/le2-labels-unfit", "none/no-split-expected", "overlap/no-split-expected", "engine-reported-layering", "engine-reconfigured"]
     return {"evaluations": 2000, "strata": strata, "events": {"Distributor.distribute": 2000, "Force.compute": 500}, "distinct_nontrivial": 300}
 
 
@@ -95,11 +95,18 @@ def run_direct(ctx, mon, labels, opts):
     judge_one(ctx, r["input"], r["layers"], o.get("algorithm"), o.get("layerWidth"), o.get("density"), o.get("nodeSpacing"), o.get("stubWidth"), case)
 
 
-def run_engine(ctx, mon, labels, opts, tag):
+def run_engine(ctx, mon, labels, opts, tag, first=None):
     from labella.force import Force
 
-    case = {"driver": "engine", "labels": labels, "options": opts, "tag": tag}
-    f = Force(dict(opts))
+    case = {"driver": "engine", "labels": labels, "options": opts, "tag": tag, "first_options": first}
+    if first is None:
+        f = Force(dict(opts))
+    else:
+        # re-configuration history: the engine was built with other options first (the H1 hook records the
+        # options the engine holds when compute() runs; the layering is judged against those)
+        f = Force(dict(first))
+        f.set_options(dict(opts))
+        ctx.stratum("engine-reconfigured", generated=1, judged=1, held=1)
     f.nodes(WL.make_nodes(labels))
     try:
         f.compute()
@@ -134,13 +141,21 @@ def worker(ctx, shard):
             if ctx.should_stop():
                 break
             labels, opts, tag = WL.gen_case(rng, max_n=120)
-            run_engine(ctx, mon, labels, opts, tag)
+            first = None
+            if rng.random() < 0.3:
+                first = rng.choice([{"minPos": 0, "maxPos": 100, "density": 0.5}, {"maxPos": 300, "algorithm": "simple"}, {"minPos": None, "stubWidth": 4},
+                                    {"maxPos": 1000, "nodeSpacing": 7.5, "density": 1}])
+                opts = dict(opts)
+                for k in ("minPos", "maxPos"):
+                    if k not in opts and k in first and rng.random() < 0.6:
+                        opts[k] = None if k == "maxPos" else 0  # explicitly remove / reset the bound of the first configuration
+            run_engine(ctx, mon, labels, opts, tag, first=first)
     elif shard["kind"] == "replay-case":
         c = shard["case"]
         if c.get("driver") == "direct":
             run_direct(ctx, mon, c["labels"], c["options"])
         else:
-            run_engine(ctx, mon, c["labels"], c["options"], c.get("tag", "replay"))
+            run_engine(ctx, mon, c["labels"], c["options"], c.get("tag", "replay"), first=c.get("first_options"))
     for k, v in mon.events.items():
         ctx.event(k, v)
     mon.uninstall()
